@@ -289,6 +289,18 @@ def _purity_test(e: ast.AST, fn: ast.FunctionDef) -> Optional[bool]:
         return False
 
     l, op, r = e.left, e.ops[0], e.comparators[0]
+    # the bound must be the tolerance (a parameter named tol*) or a small literal: a wide bound lets
+    # visibly mixed states pass as pure
+    def small(x) -> bool:
+        if isinstance(x, ast.Name):
+            return x.id.startswith("tol") or x.id in ("eps", "epsilon", "atol")
+        if isinstance(x, ast.Constant) and isinstance(x.value, (int, float)):
+            return abs(x.value) <= 1e-3
+        return False
+    if has_tr_rho2(l) and not small(r):
+        return None
+    if has_tr_rho2(r) and not small(l):
+        return None
     if has_tr_rho2(l) and is_abs(inline(l)) is not None:
         if isinstance(op, (ast.Lt, ast.LtE)):
             return True
